@@ -188,6 +188,27 @@ structure Config where
   fuzzy : Bool
 deriving Repr
 
+/-! ## `update_config` -/
+
+/-- `extension.strip_prefix(".").or_else(|| extension.strip_prefix("*."))` -/
+def normExt (e : List Char) : List Char :=
+  match e with
+  | '.' :: r => r
+  | '*' :: '.' :: r => r
+  | _ => e
+
+/-- the templates `update_config` derives from `runtime.extensions` and `runtime.requirePattern` -/
+def configPatterns (exts reqPat : List (List Char)) : List (List Char) :=
+  let names := exts.map normExt
+  let names := if names.contains "lua".toList then names else names ++ ["lua".toList]
+  names.map (fun e => "?.".toList ++ e) ++
+    (if reqPat.isEmpty then names.map (fun e => "?/init.".toList ++ e) else reqPat)
+
+/-- `LuaModuleIndex::update_config`: patterns, moduleMap rules and the fuzzy flag are replaced entirely
+(workspaces are managed separately) -/
+def updateConfig (cfg : Config) (fuzzy : Bool) (exts reqPat : List (List Char)) (rules : List Rule) : Config :=
+  { cfg with patterns := configPatterns exts reqPat, rules := rules, fuzzy := fuzzy }
+
 /-! ## state -/
 
 structure Info where
@@ -363,6 +384,17 @@ def step (cfg : Config) (s : MState) : Op → MState
   | .clear => clear s
 
 def run (cfg : Config) (ops : List Op) : MState := ops.foldl (step cfg) MState.new
+
+/-- histories with configuration changes: an index operation or an `update_config` -/
+inductive COp where
+  | op (o : Op)
+  | config (fuzzy : Bool) (exts reqPat : List (List Char)) (rules : List Rule)
+
+def stepC (st : Config × MState) : COp → Config × MState
+  | .op o => (st.1, step st.1 st.2 o)
+  | .config fz exts rp rules => (updateConfig st.1 fz exts rp rules, st.2)
+
+def runC (cfg : Config) (h : List COp) : Config × MState := h.foldl stepC (cfg, MState.new)
 
 /-! ## specification: the set of live (file, module path), in insertion order -/
 
